@@ -310,7 +310,7 @@ def _has_ite(t):
         if x.get_id() in seen:
             continue
         seen.add(x.get_id())
-        if z3.is_app_of(x, z3.Z3_OP_ITE) or z3.is_app_of(x, z3.Z3_OP_STORE):
+        if z3.is_app_of(x, z3.Z3_OP_ITE):
             return True
         stack.extend(x.children())
     return False
